@@ -23,6 +23,9 @@ Next == \/ c.t = "root" /\ c' \in {[t |-> "grp", j |-> j] : j \in 0..15}
         \/ c.t = "grp"  /\ c' \in {[t |-> "sb", x |-> x] : x \in {y \in SBCases : (y[4] + y[1]) % 16 = c.j}}
                                    \cup {[t |-> "box", x |-> x] : x \in {y \in BoxCases : (y[4] + y[1] + 5) % 16 = c.j}}
 
+\* contents of the caller's sharedKey array on entry to Precompute: Pat(seed, 32) (0 = fresh zero array, 1 = all 0xff, 9/200 = patterns)
+DirtyBufSeeds == {0, 1, 9, 200}
+
 KeyOf(cc) == IF cc.t = "sb" THEN Pat(cc.x[1], 32) ELSE BoxKeyOfShared(Pat(cc.x[1], 32))
 
 \* one invariant prints the case and checks the model-level laws on it (sharing the evaluation of Seal)
@@ -35,7 +38,8 @@ EmitAndLaws ==
         out   == Seal(key, nonce, msg)
     IN /\ IF c.t = "sb"
           THEN PrintT("TRACE " \o ToJson([t |-> "sb", kseed |-> c.x[1], nseed |-> c.x[2], mseed |-> c.x[3], len |-> n, out |-> out]))
-          ELSE PrintT("TRACE " \o ToJson([t |-> "box", sseed |-> c.x[1], nseed |-> c.x[2], mseed |-> c.x[3], len |-> n, key |-> key, out |-> out]))
+          ELSE PrintT("TRACE " \o ToJson([t |-> "box", sseed |-> c.x[1], nseed |-> c.x[2], mseed |-> c.x[3], len |-> n, key |-> key, out |-> out,
+                                          bufseeds |-> DirtyBufSeeds]))
        /\ Len(out) = n + 16                                                   \* Overhead
        /\ SubSeq(out, 17, n + 16) = SBCryptStream(key, nonce, msg)            \* secretbox.go's first-block split = the stream from byte 32
        /\ (n <= OpenMax) =>
@@ -44,6 +48,8 @@ EmitAndLaws ==
             /\ (n > 0) => Open(key, nonce, FlipBit(out, 16 + n, 7)) = Rejected          \* the last ciphertext bit
             /\ Open(key, nonce, SubSeq(out, 1, n + 15)) = Rejected                     \* truncated
        /\ (c.t = "box" /\ c.x[1] = 0) => key = LowOrderBoxKey
+       \* Precompute into a used array: zero, all-ones, a pattern, and "the result of the previous Precompute" (the key itself)
+       /\ (c.t = "box") => PrecomputeBufferIndependent({Pat(b, 32) : b \in DirtyBufSeeds} \cup {key}, Pat(c.x[1], 32))
 
 LensQuick == {0, 1, 15, 16, 17, 31, 32, 33, 47, 48, 49, 63, 64, 65, 95, 96, 97, 100}
 LensAll == LensQuick \cup {2, 30, 34, 79, 80, 81}
